@@ -20,43 +20,37 @@ Definition fd_args_ok (p a : option Z) (circ : bool) : bool :=
 Definition fd_decl_len (n : Z) (p a : option Z) (circ : bool) : Z :=
   if circ then n else n + b2z (given p) + b2z (given a) - 1.
 
-(** _eval (_diff.py:237-275): what is put in front of / behind the array before snp.diff;
-    the tests there are [== 0] / [== 1].  For prepend/append = 0 and for circular a slice
-    x[ind] of width 1 along the axis is used; [ind] is built with [i == self.axis], which never
-    holds when the stored axis is negative ([neg], only possible for axis < -rank): then the
-    whole array (length n on the axis) is prepended / appended *)
-Definition fd_ext (n : Z) (o : option Z) (neg : bool) : Z :=
+(** _eval (_diff.py:237-275): what is put in front of / behind the array before snp.diff:
+    one slice / one zero for prepend, append in {0, 1} (the tests there are [== 0] / [== 1]),
+    one slice for circular.  (The stored axis is never negative: the constructor rejects
+    axes outside [-rank, rank), fix fdc6426.) *)
+Definition fd_ext (o : option Z) : Z :=
   match o with
-  | Some z => if z =? 0 then (if neg then n else 1) else if z =? 1 then 1 else 0
+  | Some z => if (z =? 0) || (z =? 1) then 1 else 0
   | None => 0
   end.
 (** snp.diff of an axis of length m has length max(m - 1, 0) *)
-Definition fd_eval_len (n : Z) (p a : option Z) (circ neg : bool) : Z :=
-  Z.max (n + (if circ then (if neg then n else 1) else fd_ext n p neg + fd_ext n a neg) - 1) 0.
+Definition fd_eval_len (n : Z) (p a : option Z) (circ : bool) : Z :=
+  Z.max (n + (if circ then 1 else fd_ext p + fd_ext a) - 1) 0.
 
 (** declared = actual on the difference axis, for every length >= 1 and every admissible
     (prepend, append, circular), in particular the falsy values prepend = 0 / append = 0 *)
 Theorem fd_len_declared_eq_actual : forall n p a circ,
-  1 <= n -> fd_args_ok p a circ = true -> fd_decl_len n p a circ = fd_eval_len n p a circ false.
+  1 <= n -> fd_args_ok p a circ = true -> fd_decl_len n p a circ = fd_eval_len n p a circ.
 Proof.
   intros n p a circ Hn H. unfold fd_args_ok in H.
   apply andb_true_iff in H as [H Ha]. apply andb_true_iff in H as [Hc Hp].
   unfold fd_decl_len, fd_eval_len, fd_ext.
   destruct circ.
   - simpl in Hc. destruct p, a; simpl in Hc; try discriminate. simpl. lia.
-  - destruct p as [zp|], a as [za|]; simpl in Hp, Ha;
-      repeat match goal with
-             | H : (_ =? 0) || (_ =? 1) = true |- _ =>
-                 apply orb_true_iff in H as [H|H]; apply Z.eqb_eq in H; subst
-             end; simpl; lia.
+  - destruct p as [zp|], a as [za|]; simpl in Hp, Ha; try rewrite Hp; try rewrite Ha; simpl; lia.
 Qed.
 
-(** axis normalisation of SingleAxisFiniteDifference (_diff.py:195-202): a negative axis is
-    shifted by the rank once and only the upper bound is tested, so an axis below -rank
-    stays negative and is *accepted* ([Some] of a negative number) *)
+(** axis normalisation of SingleAxisFiniteDifference (_diff.py:195-202, after fix fdc6426): a
+    negative axis is shifted by the rank once, then the axis must lie in [0, rank) *)
 Definition fd_axis (rank : nat) (ax : Z) : option Z :=
   let ax' := if ax <? 0 then Z.of_nat rank + ax else ax in
-  if Z.of_nat rank <=? ax' then None else Some ax'.
+  if (ax' <? 0) || (Z.of_nat rank <=? ax') then None else Some ax'.
 
 Fixpoint fd_shape_from (i : Z) (s : shape) (axis : Z) (p a : option Z) (circ : bool) : shape :=
   match s with
@@ -71,19 +65,16 @@ Definition safd_declared (s : shape) (ax : Z) (p a : option Z) (circ : bool) : o
   | Some k => if fd_args_ok p a circ then Some (if circ then s else fd_shape_from 0 s k p a circ) else None
   end.
 
-(** the shape evaluation produces: snp.diff along [self.axis] (Python indexing: a negative
-    axis counts from the end) *)
-Fixpoint fd_eval_from (i : Z) (s : shape) (axis : Z) (p a : option Z) (circ neg : bool) : shape :=
+(** the shape evaluation produces: snp.diff along [self.axis] *)
+Fixpoint fd_eval_from (i : Z) (s : shape) (axis : Z) (p a : option Z) (circ : bool) : shape :=
   match s with
   | [] => []
-  | x :: t => (if i =? axis then fd_eval_len x p a circ neg else x) :: fd_eval_from (i + 1) t axis p a circ neg
+  | x :: t => (if i =? axis then fd_eval_len x p a circ else x) :: fd_eval_from (i + 1) t axis p a circ
   end.
 Definition safd_actual (s : shape) (ax : Z) (p a : option Z) (circ : bool) : option shape :=
   match fd_axis (length s) ax with
   | None => None
-  | Some k =>
-      if fd_args_ok p a circ
-      then Some (fd_eval_from 0 s (if k <? 0 then Z.of_nat (length s) + k else k) p a circ (k <? 0)) else None
+  | Some k => if fd_args_ok p a circ then Some (fd_eval_from 0 s k p a circ) else None
   end.
 
 (** documented rule: axis in [-rank, rank), the length of that axis changes by
@@ -98,34 +89,48 @@ Proof. revert i. induction s as [|x t IH]; intros i; simpl; [reflexivity|]. rewr
 
 Lemma fd_from_eq i s k p a circ :
   Forall (fun d => 1 <= d) s -> fd_args_ok p a circ = true ->
-  fd_shape_from i s k p a circ = fd_eval_from i s k p a circ false.
+  fd_shape_from i s k p a circ = fd_eval_from i s k p a circ.
 Proof.
   intros Hs Hok. revert i. induction Hs as [|x t Hx Ht IH]; intros i; simpl; [reflexivity|].
   rewrite IH. destruct (i =? k); [|reflexivity]. rewrite fd_len_declared_eq_actual by assumption. reflexivity.
 Qed.
 
-(** For every shape with positive dimensions, every axis in [-rank, rank) and every admissible
-    boundary setting: declared output shape = documented rule = shape of the evaluation. *)
+(** For every shape with positive dimensions, EVERY axis and every boundary setting: declared
+    output shape = documented rule = shape of the evaluation; axes outside [-rank, rank) and
+    inadmissible settings are rejected by all three. *)
 Theorem safd_declared_eq_spec_eq_actual : forall s ax p a circ,
-  Forall (fun d => 1 <= d) s -> - Z.of_nat (length s) <= ax < Z.of_nat (length s) ->
+  Forall (fun d => 1 <= d) s ->
   safd_declared s ax p a circ = safd_spec s ax p a circ /\
   safd_declared s ax p a circ = safd_actual s ax p a circ.
 Proof.
-  intros s ax p a circ Hs Hax. unfold safd_declared, safd_spec, safd_actual, fd_axis. cbv zeta.
-  destruct (ax <? - Z.of_nat (length s)) eqn:E1; [apply Z.ltb_lt in E1; lia|].
-  destruct (Z.of_nat (length s) <=? ax) eqn:E2; [apply Z.leb_le in E2; lia|]. cbn [orb].
+  intros s ax p a circ Hs. unfold safd_declared, safd_spec, safd_actual, fd_axis. cbv zeta.
   destruct (ax <? 0) eqn:E3; [pose proof (proj1 (Z.ltb_lt _ _) E3) as E3p | pose proof (proj1 (Z.ltb_ge _ _) E3) as E3p].
-  - destruct (Z.of_nat (length s) <=? Z.of_nat (length s) + ax) eqn:E4; [apply Z.leb_le in E4; lia|].
-    destruct (Z.of_nat (length s) + ax <? 0) eqn:E5; [apply Z.ltb_lt in E5; lia|].
+  - destruct (ax <? - Z.of_nat (length s)) eqn:E1; [apply Z.ltb_lt in E1 | apply Z.ltb_ge in E1]; cbn [orb].
+    + destruct (Z.of_nat (length s) + ax <? 0) eqn:E5; [|apply Z.ltb_ge in E5; lia]. cbn [orb]. split; reflexivity.
+    + destruct (Z.of_nat (length s) <=? ax) eqn:E2; [apply Z.leb_le in E2; lia|].
+      destruct (Z.of_nat (length s) + ax <? 0) eqn:E5; [apply Z.ltb_lt in E5; lia|].
+      destruct (Z.of_nat (length s) <=? Z.of_nat (length s) + ax) eqn:E4; [apply Z.leb_le in E4; lia|]. cbn [orb].
+      destruct (fd_args_ok p a circ) eqn:Hok; [|split; reflexivity].
+      destruct circ; [rewrite fd_shape_from_circ; split; [reflexivity|]; rewrite <- fd_from_eq by assumption;
+                      rewrite fd_shape_from_circ; reflexivity|].
+      split; [reflexivity|]. rewrite fd_from_eq by assumption. reflexivity.
+  - destruct (ax <? - Z.of_nat (length s)) eqn:E1; [apply Z.ltb_lt in E1; lia|]. rewrite E3. cbn [orb].
+    destruct (Z.of_nat (length s) <=? ax) eqn:E2; [split; reflexivity|].
     destruct (fd_args_ok p a circ) eqn:Hok; [|split; reflexivity].
     destruct circ; [rewrite fd_shape_from_circ; split; [reflexivity|]; rewrite <- fd_from_eq by assumption;
                     rewrite fd_shape_from_circ; reflexivity|].
     split; [reflexivity|]. rewrite fd_from_eq by assumption. reflexivity.
-  - rewrite E2, ?E3.
-    destruct (fd_args_ok p a circ) eqn:Hok; [|split; reflexivity].
-    destruct circ; [rewrite fd_shape_from_circ; split; [reflexivity|]; rewrite <- fd_from_eq by assumption;
-                    rewrite fd_shape_from_circ; reflexivity|].
-    split; [reflexivity|]. rewrite fd_from_eq by assumption. reflexivity.
+Qed.
+
+(** in particular: an axis outside [-rank, rank) is rejected at construction *)
+Theorem safd_axis_out_of_range_rejected : forall s ax p a circ,
+  ax < - Z.of_nat (length s) \/ Z.of_nat (length s) <= ax -> safd_declared s ax p a circ = None.
+Proof.
+  intros s ax p a circ H. unfold safd_declared, fd_axis. cbv zeta.
+  destruct (ax <? 0) eqn:E3; [apply Z.ltb_lt in E3 | apply Z.ltb_ge in E3].
+  - destruct (Z.of_nat (length s) + ax <? 0) eqn:E5; [reflexivity|]. apply Z.ltb_ge in E5. lia.
+  - destruct (ax <? 0) eqn:E6; [apply Z.ltb_lt in E6; lia|].
+    destruct (Z.of_nat (length s) <=? ax) eqn:E2; [reflexivity|]. apply Z.leb_gt in E2. lia.
 Qed.
 
 (** FiniteDifference = VerticalStack of the single-axis operators: collapse rule of _stack.py *)
@@ -147,7 +152,8 @@ Proof.
 Qed.
 
 (** scico.numpy.util.normalize_axes as used by FiniteDifference (linop_over_axes): negative
-    entries are shifted by the rank once, only the upper bound is tested, duplicates rejected *)
+    entries are shifted by the rank once, then every entry must lie in [0, rank) (fix fdc6426);
+    duplicates rejected *)
 Fixpoint has_dup (l : list Z) : bool :=
   match l with [] => false | x :: t => existsb (Z.eqb x) t || has_dup t end.
 Definition norm_axes (rank : nat) (axes : option (list Z)) : option (list Z) :=
@@ -155,7 +161,7 @@ Definition norm_axes (rank : nat) (axes : option (list Z)) : option (list Z) :=
   | None => Some (map Z.of_nat (seq 0 rank))
   | Some l =>
       let l' := map (fun a => if a <? 0 then Z.of_nat rank + a else a) l in
-      if existsb (fun a => Z.of_nat rank <=? a) l' then None
+      if existsb (fun a => (a <? 0) || (Z.of_nat rank <=? a)) l' then None
       else if has_dup l' then None else Some l'
   end.
 Definition fd_declared (s : shape) (axes : option (list Z)) (p a : option Z) (circ : bool) : option nshape :=
